@@ -5,10 +5,10 @@ import (
 )
 
 func init() {
-	Runners["C01"] = fileRunner(func(p *harness.Program) Result { return RunC01(p, false) })
+	Runners["C01"] = fileRunnerEnum(func(p *harness.Program) Result { return RunC01(p, false) })
 	harness.Specs["C01"] = &harness.PropSpec{
 		ID: "C01", Test: "TestC01", Kind: "file", Level: "fault_enumeration",
-		Quick: 2000, Thorough: 60000,
+		Quick: 2000, Thorough: 5000,
 		Rule: "evaluations = generated histories; each history (1-10 transactions quick, up to 30 thorough; alloc/overwrite/free/flush/checkpoint/" +
 			"rollback/failed commits/reopens, bounded and unbounded, any WAL limit and initial meta area) is executed once on the simulated disk, then for EVERY " +
 			"op-log position after file creation all crash images are built: durable prefix + every subset of the un-synced page writes/truncates " +
@@ -38,9 +38,9 @@ func crashParams(thorough bool, seed uint64) harness.CrashParams {
 		for i := 1; i < 84; i++ {
 			cuts = append(cuts, i)
 		}
-		return harness.CrashParams{MaxFull: 7, Random: 40, TornCuts: cuts, SuffixEvery: 12, Seed: seed}
+		return harness.CrashParams{MaxFull: 7, Random: 40, TornCuts: cuts, SuffixEvery: 12, MaxImages: 60000, Seed: seed}
 	}
-	return harness.CrashParams{MaxFull: 5, Random: 6, TornCuts: []int{1, 20, 40, 60, 83}, SuffixEvery: 50, Seed: seed}
+	return harness.CrashParams{MaxFull: 5, Random: 6, TornCuts: []int{1, 20, 40, 60, 83}, SuffixEvery: 50, MaxImages: 12000, Seed: seed}
 }
 
 // RunC01 records one history and checks all its crash images.
@@ -65,5 +65,6 @@ func RunC01(p *harness.Program, thorough bool) Result {
 	c["recovered-new-in-window"] = st.RecoveredTo["new"]
 	c["recovered-old-in-window"] = st.RecoveredTo["old"]
 	c["torn-valid-skipped"] = st.TornValid
+	c["enumeration-capped"] = st.Capped
 	return Result{V: v, Counters: c, Nontrivial: st.Nontrivial > 0 && st.InWindow > 0}
 }
